@@ -4,5 +4,8 @@ CONSTANTS MaxDepth = 3
   StoreByCopy = TRUE
   TailKeepsSets = TRUE
   SplitContinues = FALSE
+  SkipEmpty = TRUE
+  SplitCachesExport = FALSE
+  SrcFRepass = TRUE
 INVARIANT SeenIsExpected
 CHECK_DEADLOCK FALSE
